@@ -2,6 +2,7 @@ package utils
 
 import (
 	"bytes"
+	"errors"
 	"fmt"
 	"sync"
 
@@ -169,6 +170,9 @@ func (p *NetFlowPipe) DecodeFlow(msg interface{}) error {
 	if err := utils.BinaryDecoder(buf, &version); err != nil {
 		return &PipeMessageError{pkt, err}
 	}
+	// a data set without a known template is reported, but does not discard
+	// the flows of the other sets of the same message
+	var templateErr error
 	switch version {
 	case 5:
 		packetV5.Version = 5
@@ -178,12 +182,18 @@ func (p *NetFlowPipe) DecodeFlow(msg interface{}) error {
 	case 9:
 		packetNFv9.Version = 9
 		if err := netflow.DecodeMessageNetFlow(buf, templates, &packetNFv9); err != nil {
-			return &PipeMessageError{pkt, err}
+			if !errors.Is(err, netflow.ErrorTemplateNotFound) {
+				return &PipeMessageError{pkt, err}
+			}
+			templateErr = &PipeMessageError{pkt, err}
 		}
 	case 10:
 		packetIPFIX.Version = 10
 		if err := netflow.DecodeMessageIPFIX(buf, templates, &packetIPFIX); err != nil {
-			return &PipeMessageError{pkt, err}
+			if !errors.Is(err, netflow.ErrorTemplateNotFound) {
+				return &PipeMessageError{pkt, err}
+			}
+			templateErr = &PipeMessageError{pkt, err}
 		}
 	default:
 		return &PipeMessageError{pkt, fmt.Errorf("not a NetFlow packet")}
@@ -201,7 +211,7 @@ func (p *NetFlowPipe) DecodeFlow(msg interface{}) error {
 	}
 
 	if p.producer == nil {
-		return nil
+		return templateErr
 	}
 
 	switch version {
@@ -217,7 +227,10 @@ func (p *NetFlowPipe) DecodeFlow(msg interface{}) error {
 		return &PipeMessageError{pkt, err}
 	}
 
-	return p.formatSend(flowMessageSet)
+	if err := p.formatSend(flowMessageSet); err != nil {
+		return err
+	}
+	return templateErr
 }
 
 func (p *NetFlowPipe) Close() {
